@@ -431,5 +431,20 @@ impl MainEvent {
     }
 }
 
+// Read-only access to the calibrated signal arrays for external verification
+// harnesses. Compiled only with `--cfg alpha_g_verif`; never part of a normal
+// build.
+#[cfg(alpha_g_verif)]
+impl MainEvent {
+    #[doc(hidden)]
+    pub fn verif_wire_signals(&self) -> &[Option<Vec<f64>>; TPC_ANODE_WIRES] {
+        &self.wire_signals
+    }
+    #[doc(hidden)]
+    pub fn verif_pad_signals(&self) -> &[[Option<Vec<f64>>; TPC_PAD_ROWS]; TPC_PAD_COLUMNS] {
+        &self.pad_signals
+    }
+}
+
 #[cfg(test)]
 mod tests;
